@@ -55,6 +55,13 @@ def ops_alphabet(full=True, nocase=False):
     O.append(('set', 'int', b'si', 7, None))
     O.append(('set', 'str', b'ss', b'v', None))
     O.append(('set', 'int', b'si', 7, 1))          # index beyond a scalar
+    O.append(('set', 'float', b'f', 2.5, 1))       # ... for every kind, by name and on the option handle
+    O.append(('set', 'bool', b'b', 1, 1))
+    O.append(('set', 'str', b's', b'v', 1))
+    O.append(('oset', 'float', b'f', 2.5, 2))
+    O.append(('oset', 'bool', b'b', 1, 1))
+    O.append(('oset', 'str', b's', b'v', 1))
+    O.append(('oset', 'int', b'i', 7, 1))
     # lists
     O.append(('setlist', b'il', 'int', []))
     O.append(('setlist', b'il', 'int', [3]))
@@ -120,6 +127,9 @@ def ops_alphabet(full=True, nocase=False):
     O.append(('setfrom', b'sd', 2, b'sd', 0))
     O.append(('setfrom', b'sl', 0, b'sl', 0))
     O.append(('setfrom', b's', 0, b'sd', 0))
+    O.append(('setlistfrom', b'sd', [1, 0]))       # the list reordered / cut down to its own elements
+    O.append(('setlistfrom', b'sd', [1]))
+    O.append(('setlistfrom', b'sl', [0, 0]))
     O.append(('setopt', b'si', b'6'))              # 'simple' options: the value lives in the caller's variable, the flag on the option
     O.append(('setopt', b'ss', b'w'))
     O.append(('setopt', b'si', b'x'))
